@@ -1,0 +1,5 @@
+//go:build !verif
+
+package fakenet
+
+func verifYield(site int) {}
